@@ -235,6 +235,40 @@ func runOne(t failer, spec *Spec, c *Case, st *Stats) {
 	if run == nil {
 		run = RunCase
 	}
+	if c.Sched.Strategy == "sweep1" {
+		// a race-shaped program under EVERY schedule with at most one deviation from the base schedule
+		// (2 alternatives per choice point; programs with more than 200 choice points at a stride)
+		try := func(devs [][2]int) (*Result, bool) {
+			cc := *c
+			cc.Sched = Sched{Strategy: "dev", Devs: devs}
+			r := run(&cc)
+			if vs := evaluate(spec, &cc, r, st); len(vs) > 0 {
+				c.Sched = cc.Sched
+				writeViolation(st.out, &cc, vs, r.Hist)
+				t.Fatalf("VIOLATION %s", vs[0])
+				return r, false
+			}
+			return r, true
+		}
+		r0, ok := try(nil)
+		if !ok || r0.Dev == nil {
+			return
+		}
+		st.Classes["sweep1-programs"]++
+		m := r0.Dev.Multi
+		stride := 1
+		if m > 200 {
+			stride = (m + 199) / 200
+		}
+		for s := 0; s < m; s += stride {
+			for p := 0; p < 2; p++ {
+				if _, ok := try([][2]int{{s, p}}); !ok {
+					return
+				}
+			}
+		}
+		return
+	}
 	r := run(c)
 	if vs := evaluate(spec, c, r, st); len(vs) > 0 {
 		writeViolation(st.out, c, vs, r.Hist)
@@ -287,6 +321,34 @@ func TestProp(t *testing.T) {
 		c := spec.Gen(rt, thorough)
 		runOne(rt, spec, c, st)
 	})
+}
+
+// FuzzProp drives the generated part of a coop check from Go's native, coverage-guided fuzzer
+// (thorough tier): the fuzzer's bytes are rapid's random stream, so it mutates configuration, program
+// and schedule together and keeps inputs that reach new code of the (instrumented) library.
+func FuzzProp(f *testing.F) {
+	prop := os.Getenv("VERIF_PROP")
+	spec := specs[prop]
+	if spec == nil || spec.Gen == nil || spec.Custom != nil {
+		f.Skipf("no fuzzable coop spec for %q", prop)
+	}
+	loadFindings()
+	st := newStats()
+	if st.out != "" {
+		st.out = filepath.Join(st.out, "fuzz")
+		os.MkdirAll(st.out, 0o755)
+	}
+	f.Fuzz(rapid.MakeFuzz(func(rt *rapid.T) {
+		if spec.Pre != nil && spec.Pre(rt, true, st) {
+			return
+		}
+		c := spec.Gen(rt, true)
+		if c.Sched.Strategy == "sweep1" {
+			c.Sched = Sched{Strategy: "base"} // one episode per input
+		}
+		st.out, st.curs = st.out, 1 // no periodic summaries from fuzz workers
+		runOne(rt, spec, c, st)
+	}))
 }
 
 type replayT struct {
